@@ -21,6 +21,12 @@ import (
 	"evylang.dev/evy/vsim/prng"
 )
 
+// L2Item and L2Check are set by package c08l2 in binaries built from the rewritten tree.
+var (
+	L2Item  func(idx int, ctx *core.Ctx)
+	L2Check func(sc *core.Scenario) *core.Violation
+)
+
 // D is the driver.
 type D struct{ base []bool }
 
@@ -281,6 +287,10 @@ func violation(sc *core.Scenario, s1, s2 core.Schedule, o1, o2 string, r2 *core.
 // RunItem runs one (program, inputs, events, seed) under K schedules.
 func (d *D) RunItem(idx int, ctx *core.Ctx) {
 	c := cfg(ctx.Tier)
+	if idx%10 == 7 && idx >= len(targeted) && L2Item != nil {
+		L2Item(idx, ctx)
+		return
+	}
 	sc := d.Base(idx, ctx)
 	if sc == nil {
 		return
@@ -454,6 +464,12 @@ func Observe(sc *core.Scenario, n int) string {
 
 // Check re-executes a disagreeing pair.
 func (d *D) Check(sc *core.Scenario) *core.Violation {
+	if sc.Level == "L2" {
+		if L2Check == nil {
+			return nil
+		}
+		return L2Check(sc)
+	}
 	if sc.Schedule2 == nil {
 		if sc.Oracle == "native-repeat" {
 			return nil // observation of uncontrolled nondeterminism: replay is probabilistic, not attempted in-process
@@ -477,7 +493,7 @@ func (d *D) Check(sc *core.Scenario) *core.Violation {
 // Shrink reduces the pair of schedules to the fewest differences: plain
 // ascending vs. a single-site flip usually names the range statement responsible.
 func (d *D) Shrink(sc *core.Scenario) []*core.Scenario {
-	if sc.Schedule2 == nil {
+	if sc.Schedule2 == nil || sc.Level == "L2" {
 		return nil
 	}
 	var out []*core.Scenario
@@ -551,7 +567,7 @@ func (d *D) Describe(ev *core.Evidence, st *core.Stats) {
 	ev.Coverage["map_range_sites_visits_with_2+_keys"] = sites
 	ev.Coverage["map_range_sites_never_reached_with_2+_keys"] = never
 	ev.Coverage["faults_injected"] = map[string]int64{"map-order:desc": c["schedule:desc"], "map-order:rot": c["schedule:rot"], "map-order:shuffle": c["schedule:shuffle"],
-		"map-order:single-site-flip": c["schedule:site-flip"], "native-process-runs": c["native_process_runs"]}
+		"map-order:single-site-flip": c["schedule:site-flip"], "native-process-runs": c["native_process_runs"], "L2 arrival-time/clock-cost variants": c["l2_timing_pairs"]}
 	ev.Coverage["simulated_time_s"] = float64(c["simulated_ns"]) / 1e9
 	ev.Coverage["steps"] = c["steps"]
 	ev.Coverage["components"] = map[string][]string{"real": {"lexer", "parser", "formatter", "evaluator", "builtins"}, "stub": {"platform (SimPlatform)", "Go map iteration order (maporder seam)", "clock (simtime)", "global math/rand (simrand)"}}
